@@ -266,6 +266,7 @@ type c19Case struct {
 	Active    bool   `json:"active"`
 	Threshold int    `json:"threshold"`
 	Suppress  bool   `json:"suppression"`
+	LongT6    bool   `json:"t6_longer_than_interval,omitempty"` // interval 100 ms, T6 400 ms (default: 150 ms / 100 ms)
 }
 
 func c19E2E(env *fw.Env) {
@@ -294,6 +295,10 @@ func c19E2E(env *fw.Env) {
 				add(c19Case{Scenario: "alive-not-answering", Active: (thr+rep)%2 == 0, Threshold: thr, Suppress: false})
 			}
 		}
+		// T6 LONGER than the interval: a probe is given T6 (not one interval) to be answered
+		add(c19Case{Scenario: "silent", Active: rep%2 == 0, Threshold: 2, Suppress: rep%2 == 0, LongT6: true})
+		add(c19Case{Scenario: "answering-slowly", Active: rep%2 == 1, Threshold: 1 + rep%2, Suppress: false, LongT6: true})
+		add(c19Case{Scenario: "answering-slowly", Active: rep%2 == 0, Threshold: 1, Suppress: true, LongT6: true})
 		add(c19Case{Scenario: "rejected-probe-then-dead", Active: rep%2 == 0, Threshold: 2, Suppress: true})
 		add(c19Case{Scenario: "rejected-probe-then-dead", Active: rep%2 == 1, Threshold: 1 + rep%2, Suppress: false})
 		add(c19Case{Scenario: "dead-after-slow-reply", Active: rep%2 == 0, Threshold: 1 + rep%2, Suppress: true})
@@ -325,6 +330,9 @@ func c19One(env *fw.Env, cs c19Case) {
 	if cs.Scenario == "alive-slow-handler" || cs.Scenario == "alive-own-linktest" || cs.Scenario == "alive-primary-answered" {
 		interval, t6 = 200*time.Millisecond, 300*time.Millisecond
 	}
+	if cs.LongT6 {
+		interval, t6 = 100*time.Millisecond, 400*time.Millisecond
+	}
 	sup := cs.Suppress
 	t3 := 8 * time.Second
 	if cs.Scenario == "dead-after-slow-reply" {
@@ -354,6 +362,10 @@ func c19One(env *fw.Env, cs c19Case) {
 				_ = c.Send(peer.Data(1, 1, false, 0x1234, 0x19190000|dataSeq.Add(1), nil))
 			case 3: // life = the peer's OWN Linktest.req, which the library answers: a frame of ours leaves after the life was seen
 				_ = c.Send(peer.LinktestReq(0x19300000 | dataSeq.Add(1)))
+			case 6: // every probe is answered, but only after 2.5 intervals (inside T6 when T6 is the longer one)
+				sys := f.Sys
+				answers.Add(1)
+				time.AfterFunc(interval*5/2, func() { _ = c.Send(peer.LinktestRsp(sys)) })
 			case 5: // the first probe is REJECTED (a frame, i.e. life), every later one is ignored
 				if rejectedOnce.CompareAndSwap(false, true) {
 					_ = c.Send(peer.RejectReq(0xFFFF, peer.STLinktestReq, 1, f.Sys))
@@ -467,6 +479,37 @@ func c19One(env *fw.Env, cs c19Case) {
 		} else {
 			env.Event("dead_peer_dropped_despite_local_sends", 1)
 		}
+	case "answering-slowly":
+		mode.Store(6)
+		time.Sleep(time.Duration(3*cs.Threshold+3) * (interval*7/2 + 20*time.Millisecond))
+		if _, err := pc.Barrier(10 * time.Second); err != nil {
+			// premise: every answer left the peer clearly inside T6 after the probe was read
+			sent := pc.SentLog()
+			for _, ev := range pc.Log() {
+				if ev.Frame.PType != 0 || ev.Frame.SType != peer.STLinktestReq {
+					continue
+				}
+				turn := time.Duration(-1)
+				for _, s := range sent {
+					if s.Frame.SType == peer.STLinktestRsp && s.Frame.Sys == ev.Frame.Sys {
+						turn = s.At - ev.At
+						break
+					}
+				}
+				if turn > t6*8/10 {
+					env.Note("scenario %d: the harness peer answered a probe only after %v (T6 %v): premise not met", cs.Index, turn, t6)
+					env.Discard()
+					return
+				}
+			}
+			fail("slow-answering-peer-dropped", fmt.Sprintf("suppression %v, threshold %d, interval %v, T6 %v: a peer that answers every probe after %v (inside T6) was disconnected after %d probes: %v", cs.Suppress, cs.Threshold, interval, t6, interval*5/2, probes.Load(), err))
+			return
+		}
+		if probes.Load() == 0 {
+			env.Discard()
+			return
+		}
+		env.Event("slow_answering_peer_kept", 1)
 	case "answering":
 		time.Sleep(time.Duration(3*cs.Threshold+2) * (interval + 20*time.Millisecond))
 		if _, err := pc.Barrier(10 * time.Second); err != nil {
